@@ -34,7 +34,8 @@ SLOT_WRONG = {
     "tags-container": ["int", "str", "list", "bool"],
     "fields-container": ["int", "str", "list", "bool"],
 }
-ENTRIES = ["Point()", "setattr", "insert-measurement-arg", "update", "update_all", "h.update", "h.update_all"]
+ENTRIES = ["Point()", "setattr", "insert-measurement-arg", "insert_multiple-measurement-arg", "handle-nonstr-name.insert",
+           "update", "update_all", "h.update", "h.update_all"]
 
 
 def valid_types(points):
@@ -76,15 +77,17 @@ class C14(univ.UnivCheck):
                     if entry in ("Point()", "setattr"):
                         cases.append((entry, slot, wid, False, None, 0, 0))
                         continue
-                    if entry == "insert-measurement-arg":
-                        if slot != "measurement" or wid == "None":
+                    if entry in ("insert-measurement-arg", "insert_multiple-measurement-arg", "handle-nonstr-name.insert"):
+                        if slot != "measurement" or wid == "None" or (entry.startswith("handle") and wid in ("list", "dict")):
                             continue
                         for ci in range(4):
                             for npre in (0, 1):
                                 cases.append((entry, slot, wid, False, None, ci, npre))
                         continue
-                    for via_callable in (False, True):
+                    for via_callable in (False, True, "inplace"):
                         if via_callable and slot.endswith("container") and wid == "bool":
+                            continue
+                        if via_callable == "inplace" and slot not in ("tagkey", "tagvalue", "fieldkey", "fieldvalue"):
                             continue
                         sels = ("all", "partial") if entry in ("update", "h.update") else (None,)
                         for sel in sels:
@@ -132,18 +135,16 @@ class C14(univ.UnivCheck):
         if slot == "measurement":
             val = v
             return {"measurement": (lambda old: val) if via_callable else val}
-        if slot == "tagkey":
-            d = {v: "v"}
-            return {"tags": (lambda old: d) if via_callable else d}
-        if slot == "tagvalue":
-            d = {"a": v}
-            return {"tags": (lambda old: d) if via_callable else d}
-        if slot == "fieldkey":
-            d = {v: 1}
-            return {"fields": (lambda old: d) if via_callable else d}
-        if slot == "fieldvalue":
-            d = {"v": v}
-            return {"fields": (lambda old: d) if via_callable else d}
+        if slot in ("tagkey", "tagvalue", "fieldkey", "fieldvalue"):
+            d = {"tagkey": {v: "v"}, "tagvalue": {"a": v}, "fieldkey": {v: 1}, "fieldvalue": {"v": v}}[slot]
+            arg = "tags" if slot.startswith("tag") else "fields"
+            if via_callable == "inplace":
+                def mutate(old):
+                    old.update(d)  # edits the mapping it was handed and returns that same object
+                    return old
+
+                return {arg: mutate}
+            return {arg: (lambda old: d) if via_callable else d}
         if slot == "tags-container":
             return {"tags": (lambda old: v) if via_callable else v}
         if slot == "fields-container":
@@ -157,7 +158,7 @@ class C14(univ.UnivCheck):
 
         entry, slot, wid, via_callable, sel, ci, npre = case
         A = self.alpha
-        sig0 = f"C14|{entry}|slot={slot}|{'callable' if via_callable else 'static'}"
+        sig0 = f"C14|{entry}|slot={slot}|{'callable-inplace' if via_callable == 'inplace' else ('callable' if via_callable else 'static')}"
         if entry in ("Point()", "setattr"):
             v = WRONG[wid]()
             try:
@@ -204,6 +205,10 @@ class C14(univ.UnivCheck):
         try:
             if entry == "insert-measurement-arg":
                 w.db.insert(A.mk_point("P2"), measurement=WRONG[wid]())
+            elif entry == "insert_multiple-measurement-arg":
+                w.db.insert_multiple([A.mk_point("P2"), A.mk_point("P4")], measurement=WRONG[wid]())
+            elif entry == "handle-nonstr-name.insert":
+                w.db.measurement(WRONG[wid]()).insert(A.mk_point("P2"))
             else:
                 kw = self._kwargs(slot, wid, via_callable)
                 q = TagQuery().noop() if sel == "all" else (TagQuery().a == A.x)
